@@ -16,7 +16,7 @@ let pc_sx (x : pc) : sx =
   | LRead b -> L [A "LRead"; bool_sx b] | LFallback -> a0 "LFallback" | RBody -> a0 "RBody"
   | RExitOpen -> a0 "RExitOpen" | RExitWrite -> a0 "RExitWrite" | LRecheck -> a0 "LRecheck"
   | DOpen f -> a1 "DOpen" f | DWrite (f, i) -> a2 "DWrite" f i | DReplace f -> a1 "DReplace" f
-  | FList1 -> a0 "FList1" | FAcquire -> a0 "FAcquire" | FExists f -> a1 "FExists" f | FTOpen f -> a1 "FTOpen" f
+  | FList1 -> a0 "FList1" | FEnter -> a0 "FEnter" | FAcquire -> a0 "FAcquire" | FExists f -> a1 "FExists" f | FTOpen f -> a1 "FTOpen" f
   | FTWrite (f, i) -> a2 "FTWrite" f i | FReplace f -> a1 "FReplace" f | FRelease -> a0 "FRelease"
   | FCheck -> a0 "FCheck" | FRead -> a0 "FRead" | FReadInstalled -> a0 "FReadInstalled"
   | XEnter -> a0 "XEnter" | XAcquire -> a0 "XAcquire" | XBody -> a0 "XBody" | XExit -> a0 "XExit"
